@@ -3,6 +3,7 @@ import RexModel.Compiled.Schedule
 import RexModel.Compiled.Ring
 import RexModel.Compiled.BufSize
 import RexModel.Compiled.Trace
+import RexModel.Compiled.Exec
 
 open Lean Rex.Driver Rex.Sched
 
@@ -48,6 +49,50 @@ def bufsize : Handler := fun j => do
     pure (putInt (bufSize a b))
   pure <| Json.mkObj [("sizes", Json.arr sizes.toArray)]
 
-def handlers : List (String × Handler) := [("sched.check", check), ("sched.replay", replay), ("sched.bufsize", bufsize)]
+def PM : Int := 1000003
+
+/-- the probe node of harness/rt.py as a `Step` of the abstract executor: carried state and payload `(s, y)` -/
+def probeStep (i : Inst) (w s0 y0 : Array Int) (draws : Array (Array Int)) : Step (Int × Int) := fun v p ws =>
+  let sPrev : Int := match p with | some x => x.1 | none => s0.getD v.kind 0
+  let acc : Int := Id.run do
+    let mut acc : Int := 0
+    let mut idx : Int := 0
+    let mut rest := ws
+    for win in xWins i v do
+      idx := idx + 1
+      let mut j : Int := 0
+      for q in win.2 do
+        j := j + 1
+        let wt := j * idx
+        let data : Int := match rest.head? with
+          | some (some x) => x.2
+          | _ => y0.getD win.1 0
+        rest := rest.tail
+        acc := acc + wt * (data % 1009) + 13 * wt * (max q (-1))
+    return acc
+  let draw := (draws.getD v.kind #[]).getD v.seq.toNat 0
+  let s := (31 * sPrev + (w.getD v.kind 1) * (acc % PM) + draw + v.seq) % PM
+  (s, (7 * s + v.seq) % PM)
+
+/-- {"cmd":"sched.exec", ...instance..., "sizes":[..], "w":[..], "s0":[..], "y0":[..], "draws":[[..]..]} →
+{"rows":[[kind, seq, state, output]..], "exec_hyp": bool, "sized": bool}: the abstract executor of `Compiled/Exec.lean`
+run on the instance with the probe step function, and the hypotheses of `exec_instance_refines` decided -/
+def execCmd : Handler := fun j => do
+  let i ← parseInst j
+  let sizes ← fieldNats j "sizes"
+  let w := (← fieldInts j "w").toArray
+  let s0 := (← fieldInts j "s0").toArray
+  let y0 := (← fieldInts j "y0").toArray
+  let draws := ((← fieldArr j "draws").mapM getInts) |>.map (fun l => (l.map List.toArray).toArray)
+  let draws ← draws
+  let st := exec (xWins i) (probeStep i w s0 y0 draws) (initX sizes) (xTrace i)
+  let rows := (xTrace i).flatten.map fun v =>
+    match st.env v with
+    | some (some x) => Json.arr #[putNat v.kind, putInt v.seq, putInt x.1, putInt x.2]
+    | _ => Json.arr #[putNat v.kind, putInt v.seq, Json.null, Json.null]
+  pure <| Json.mkObj [("rows", Json.arr rows.toArray), ("exec_hyp", Json.bool (execHypOk i)),
+                      ("sized", Json.bool (kindsOk i sizes.length && sizedOk (traceOf i 0) sizes.length sizes))]
+
+def handlers : List (String × Handler) := [("sched.check", check), ("sched.replay", replay), ("sched.bufsize", bufsize), ("sched.exec", execCmd)]
 
 end Rex.Driver.Sched
